@@ -856,16 +856,8 @@ def c17_state_set_from_arms(F, rep):
                   "that reaches one halts there and returns the state value itself" % (", ".join(roots) or "?", (" and then grown by " + "; ".join(adders)) if adders else ""),
                   "validate_fsm_state_coverage (mech_interpreter.lib)", sample={"source": roots, "adders": adders})
     rep.floor("C17-R7", "state sets used for validation", n, 1)
-    # the checks themselves: start state and targets are tested with contains(), failure ends in FsmUndefinedStateError (in the validator or in a module helper it calls for the start state)
-    und = [x for x in find(body, "struct") if x[1].endswith("FsmUndefinedStateError")]
-    seen = {"validate_fsm_state_coverage"}
-    # (only helpers called outside the transition loops count: the two constructions looked for are those of the start-state check)
-    for c, chain in loop_chain(body, lambda x: x[0] == "call"):
-        callee = last_seg(path_of(c[1]) or "")
-        if callee in fns and callee not in seen and not chain:
-            seen.add(callee)
-            und += [x for x in find(fns[callee]["body"], "struct") if x[1].endswith("FsmUndefinedStateError")]
-    rep.floor("C17-R7", "FsmUndefinedStateError constructions in the validator", len(und), 2)
+    # the checks themselves (start state named / declared, unconditional and guarded transition targets) are decided on MIR in rules/c17.py: validator_checks;
+    # the former floor counted copies of the FsmUndefinedStateError construction, i.e. today's duplication, not what is checked
 
 
 # ---------------------------------------------------------------- subscript operands keep their position (C03-R7 / C04-R7)
